@@ -559,6 +559,9 @@ class Union(Structure, metaclass=UnionMetaType):
             raise NotImplementedError("Modifying a dynamic union is not yet supported")
 
         super().__setattr__(attr, value)
+        if attr not in self.__class__.lookup and attr in self.__class__.fields:
+            # Field of an anonymous structure: the assignment went through its proxy, which rebuilt the union already
+            return
         self._rebuild(attr)
 
     def _rebuild(self, attr: str) -> None:
